@@ -187,6 +187,10 @@ func properties() map[string]Property {
 	for _, tr := range []int64{0} {
 		c17 = append(c17, Job{Harness: "H_C17_R", Args: []int64{1, 2, 1, tr}, Tier: "thorough", Covers: []string{"C17.done"}, Bounds: rb(1)})
 	}
+	for _, tr := range []int64{0, 1, 3, 7, 8, 9} {
+		c17 = append(c17, Job{Harness: "H_C17_R", Args: []int64{15, 4, 1, tr}, Tier: "thorough", Covers: []string{"C17.done"},
+			Bounds: f15 + "; Xor, EvenOdd; args (family, clip type, fill rule, transformation: 0 permute, 1 rotate start, 3 repeat a vertex, 7/8 mirror, 9 rotate 90 degrees - the mirrored and rotated spellings put the shared edges on different sweep events)"})
+	}
 	ps["C17"] = Property{ID: "C17", Level: "model_checking",
 		Explain:  "the same operation on two spellings of the same symbolic input inside one run; regions compared cell by cell. Determinism: the executor aborts a path on any nondeterminism source (map range, goroutine, select, channel) and the sort is the toolchain's real pdqsort, interpreted",
 		Assumes:  []string{floatAssume, heapAssume, solverAssume},
